@@ -92,8 +92,13 @@ class Worker:
         try:
             self.rc = self.p.wait(timeout=timeout)
         except subprocess.TimeoutExpired:
-            self.p.kill()
-            self.rc = self.p.wait()
+            # stage time limit: ask the worker to write its counters down (SIGTERM), then make sure it is gone
+            self.p.terminate()
+            try:
+                self.p.wait(timeout=20)
+            except subprocess.TimeoutExpired:
+                self.p.kill()
+                self.p.wait()
             self.rc = -999
         self.logf.close()
         return self.rc
@@ -402,7 +407,7 @@ def run_check(pid, tier, seed):
                        '-timeout=30', '-rss_limit_mb=6000', '-malloc_limit_mb=0', '-artifact_prefix=' + o + '/',
                        '-print_final_stats=1', '-verbosity=0', '-use_value_profile=1', '-len_control=0', corpus]
                 workers.append(('fuzz', Worker('fuzz%d' % i, cmd, env, o)))
-        limit = tc.get('stage_timeout', 3600 if tier == 'thorough' else 1800)
+        limit = int(os.environ.get('VERIF_STAGE_TIMEOUT', '0') or 0) or tc.get('stage_timeout', 3600 if tier == 'thorough' else 1800)   # the environment override is a development aid
         deadline = time.time() + limit
         for stage, w in workers:
             rc = w.wait(timeout=max(5, deadline - time.time()))
